@@ -155,11 +155,16 @@ pub fn check_consistency(n: &Node, table: &BlockTable, max_id: u64) -> Vec<(Stri
             break;
         }
     }
-    // (iv) utxoset == replay of the path, on entries younger than the purge horizon
+    // (iv) utxoset == replay of the path, on the entries that can still matter: outputs created in
+    // block c are spendable up to block c+gp and are read once more by the rebroadcast of block
+    // c+gp+1, so with the next block being tip+1 everything created before tip-gp is dead weight
+    // (e.g. the payout-adjusted input of an unwound rebroadcast, re-inserted under a key that never
+    // existed but is expired by age) until the purge removes it
+    let floor = tip_id.saturating_sub(gp).max(horizon + 1);
     let (ledger, _issues) = RefLedger::replay(gp, &path);
     let impl_set = impl_utxo(&n.chain);
     for (k, e) in ledger.utxo.iter() {
-        if e.block_id <= horizon {
+        if e.block_id < floor {
             continue;
         }
         match impl_set.get(k) {
@@ -179,7 +184,7 @@ pub fn check_consistency(n: &Node, table: &BlockTable, max_id: u64) -> Vec<(Stri
             continue;
         }
         let bid = u64::from_be_bytes(k[33..41].try_into().unwrap());
-        if bid <= horizon {
+        if bid < floor {
             continue;
         }
         if !ledger.utxo.contains_key(k) {
